@@ -300,6 +300,11 @@ func (br *xmpReader) readTagValue() (buf []byte, err error) {
 			for k < len(buf) && isWhiteSpace(buf[k]) {
 				k++
 			}
+			if (k == len(buf) || (buf[k] == '<' && k+1 == len(buf))) && len(buf) >= s {
+				// only white space so far: what follows it decides whether it belongs to the value
+				s += maxTagValueSize
+				continue
+			}
 			if k == len(buf) || (buf[k] == '<' && (k+1 == len(buf) || buf[k+1] != '/')) {
 				i = k
 			}
